@@ -1,6 +1,7 @@
 From GV Require Import Common.Outcome C13.Model C13.Spec C13.Proofs.
 From GV Require Import C13.PipelineModel C13.PipelineSpec C13.PipelineProofs.
 From GV Require Import C13.PipelineRunModel C13.PipelineRunSpec C13.PipelineRunProofs.
+From GV Require Import C13.SettingsModel C13.SettingsSpec C13.SettingsProofs.
 
 Theorem C13_subst_mirror_meets_spec : subst_mirror_meets_spec_stmt.
 Proof. exact subst_mirror_meets_spec. Qed.
@@ -141,3 +142,35 @@ Print Assumptions C13_tied_keep_found_order.
 Theorem C13_aud_fixed_value : aud_fixed_value_stmt.
 Proof. exact aud_fixed_value. Qed.
 Print Assumptions C13_aud_fixed_value.
+
+Theorem C13_settings_in_force : settings_in_force_stmt.
+Proof. exact settings_in_force. Qed.
+Print Assumptions C13_settings_in_force.
+
+Theorem C13_settings_merge_never_conflicts : settings_merge_never_conflicts_stmt.
+Proof. exact settings_merge_never_conflicts. Qed.
+Print Assumptions C13_settings_merge_never_conflicts.
+
+Theorem C13_builder_setting_wins : builder_setting_wins_stmt.
+Proof. exact builder_setting_wins. Qed.
+Print Assumptions C13_builder_setting_wins.
+
+Theorem C13_section_setting_used_otherwise : section_setting_used_otherwise_stmt.
+Proof. exact section_setting_used_otherwise. Qed.
+Print Assumptions C13_section_setting_used_otherwise.
+
+Theorem C13_unknown_keys_reported : unknown_keys_reported_stmt.
+Proof. exact unknown_keys_reported. Qed.
+Print Assumptions C13_unknown_keys_reported.
+
+Theorem C13_settings_never_use_theirs : settings_never_use_theirs_stmt.
+Proof. exact settings_never_use_theirs. Qed.
+Print Assumptions C13_settings_never_use_theirs.
+
+Theorem C13_section_has_no_bare_marks : section_has_no_bare_marks_stmt.
+Proof. exact section_has_no_bare_marks. Qed.
+Print Assumptions C13_section_has_no_bare_marks.
+
+Theorem C13_section_of_parsed : section_of_parsed_stmt.
+Proof. exact section_of_parsed. Qed.
+Print Assumptions C13_section_of_parsed.
